@@ -59,7 +59,7 @@ Section WithPayloader.
   (* Packetize: the state afterwards, and the train (before the optional extension on its last packet) *)
   Theorem packetize_numbering : forall p payload samples now, sane (pz_seq p) ->
     payload <> [] ->
-    let frags := pay (u16 (pz_mtu p - abs_overhead (pz_abs p))) payload in
+    let frags := pay (pz_budget p) payload in
     roc (pz_seq p) + zlen frags < 18446744073709551616 ->
     let '(p', pkts) := packetize pay p payload samples now in
     sane (pz_seq p') /\ ext (pz_seq p') = ext (pz_seq p) + zlen frags /\
